@@ -257,6 +257,19 @@ fn c01(a: &Args) -> Report {
         t.keys = vec![0, 1];
         specs.push(t);
     }
+    // a closed blob whose on-disk index has several inner nodes per layer: 1000-byte keys (three
+    // headers per leaf, five children per inner node), 36 keys = 12 leaves under 3 inner nodes
+    {
+        let mut prefix: Vec<Op> = (0..36u8).map(|k| Op::w(k, 1)).collect();
+        prefix.push(Op::Rot);
+        let bi = vec![Op::w(17, 2), Op::d(20, 2), Op::w(35, 1), Op::Rot, Op::Rst];
+        let mut t = SeqSpec::new("C01/big-index/L1000", bi, if thorough { 3 } else { 2 });
+        t.prefix = prefix;
+        t.key_len = 1000;
+        t.checks = Checks { outcome: true, latest: true, ..Default::default() };
+        t.keys = (0..36u8).collect();
+        specs.push(t);
+    }
     // version runs: one key, every sequence of writes / deletes over three timestamps (the
     // insertion path changes beyond four versions of a key), observed in memory, through the
     // on-disk index (after a rotation) and after a restart
@@ -694,6 +707,25 @@ fn c13(a: &Args) -> Report {
             sp.keys = vec![0, 7];
             sp.bound = 2;
             sp.max_execs = if thorough { 30_000 } else { 3_000 };
+            sp.read_points = false;
+            sspecs.push(sp);
+        }
+    }
+    // an index dump is requested while the worker's fsync task is still running
+    for (cname, clients) in [
+        ("W;CloseBg", vec![vec![COp::w(7, 10), COp::M(Op::CloseBg)]]),
+        ("W;TryClose", vec![vec![COp::w(7, 10), COp::M(Op::TryClose)]]),
+        ("W;Rot", vec![vec![COp::w(7, 10), COp::M(Op::Rot)]]),
+        ("W|CloseBg", vec![vec![COp::w(7, 10)], vec![COp::M(Op::CloseBg)]]),
+        ("W;FreeExcess|W", vec![vec![COp::w(7, 10), COp::M(Op::FreeExcess)], vec![COp::w(7, 11)]]),
+    ] {
+        for mode in [IoMode::Inplace, IoMode::Background] {
+            let mut sp = SchedSpec::new(&format!("C13/sched/dump-while-syncing/{cname}/{mode:?}"), mode, vec![Op::w(0, 1)], clients.clone());
+            sp.wcfg.max_dirty = Some(0);
+            sp.liveness_check = true;
+            sp.keys = vec![0, 7];
+            sp.bound = 2;
+            sp.max_execs = if thorough { 30_000 } else { 2_000 };
             sp.read_points = false;
             sspecs.push(sp);
         }
@@ -1395,6 +1427,15 @@ fn c12(a: &Args) -> Report {
     let mut s = specs[2].clone();
     s.name = "C12/seq/max_dirty=64/background-io".into();
     s.io_mode = IoMode::Background;
+    specs.push(s);
+    // a blob that is full but too young to be replaced (the replacement request is debounced by
+    // the blob's age): the dirty-byte rule applies to it like to any other
+    let mut s = specs[2].clone();
+    s.name = "C12/seq/max_dirty=64/full-young-blob".into();
+    s.wcfg.debounce_ms = u64::MAX;
+    s.wcfg.max_data_in_blob = 2;
+    s.alphabet = vec![Op::w(0, 1), Op::Write { k: 1, ts: 2, meta: None, size: 5 * 1024 }, Op::d(0, 2), Op::Fsync, Op::TryClose];
+    s.checks = Checks { sync: true, ..Default::default() };
     specs.push(s);
     let results = run_specs(&specs, a, &no_known);
     let mut rep = seq_report("C12", a, "model_checking", results, SEQ_RULE);
